@@ -504,6 +504,7 @@ func (fr *Frame) applyContract(site ssa.Instruction, k *FuncContract, ce callee,
 		// a contract scoped to this caller may mention the caller's locals and
 		// parameters by name (the callee's own parameter names win)
 		env.frame = fr
+		env.callSite = true
 		for _, p := range fr.fn.Params {
 			if _, bound := fr.vals[p]; bound {
 				env.vars[p.Name()] = cval{t: fr.val(p), typ: p.Type(), sort: vc.sortOf(p.Type())}
